@@ -135,6 +135,7 @@ def run(tier, seed):
         # (3) control: A against A
         A.run_case(impl.AuthPolicy(ch, "example.com", "https://example.com", ka, 0, False), a1, "record", "accept", "A-assertion-vs-A-key")
     A.close(); B.close()
+    fw.env_invariance(chk, "auth")          # the same seeded cases under -O / -OO, warnings-as-errors, other TZ / locale, a private CA bundle
     return fw.finish(chk, ob, br, TRUSTED,
                      ["two credentials of the run are 'distinct' when their public key bytes differ"],
                      RULE, "coqc -Q . PW Properties/C08.v; thorough: coqchk -o")
